@@ -71,7 +71,7 @@ def run(model, rep, tier):
     vl = model.func("dns.name._validate_labels")
     cfg = CFG(vl.node, implicit_exc=False)
     ev = pat.Env()
-    pat.has(vl.node, "for __label in labels:\n    __ll = len(__label)\n    __total += __ll + 1\n    ...", ev)
+    pat.has(vl.node, "__ll = len(__label)\n__total += __ll + 1", ev)
     LL, TOTAL, LABEL = ev.get("__ll", "?ll"), ev.get("__total", "?total"), ev.get("__label", "?label")
     for exc, var, least, what in (("LabelTooLong", LL, 64, "label length"), ("NameTooLong", TOTAL, 256, "encoded length")):
         rs = [n for n in cfg.nodes if isinstance(n.ast, ast.Raise) and exc in src(n.ast)]
@@ -97,9 +97,22 @@ def run(model, rep, tier):
     rep.check(defs.get(LL) == [f"len({LABEL})"] and defs.get(TOTAL) == ["0", f"Add= {LL} + 1"], "R-01.2", vl.qualname, where(vl, vl.node), "ll = len(label); total accumulates len(label) + 1 per label",
               f"accounting changed: ll={defs.get(LL)} total={defs.get(TOTAL)}", stmt="accounting")
     fl = [n for n in ast.walk(vl.node) if isinstance(n, ast.For)]
-    rep.check(len(fl) == 1 and src(fl[0].iter) == "labels", "R-01.2", vl.qualname, where(vl, vl.node), "every label is visited", "not every label is visited", stmt="all-labels")
+    rep.check(len(fl) == 1 and src(fl[0].iter) in ("labels", "enumerate(labels)"), "R-01.2", vl.qualname, where(vl, vl.node), "every label is visited", "not every label is visited", stmt="all-labels")
     t = " ".join(src(vl.node).split())
-    rep.check(pat.has(vl.node, "if __i >= 0 and __i != __l - 1:\n    raise EmptyLabel", ev) and pat.has(vl.node, "__l = len(labels)", ev) and pat.has(vl.node, "if __i < 0 and __label == b'':\n    __i = __j\n__j += 1", ev), "R-01.2", vl.qualname, where(vl, vl.node), "an empty label is allowed only in last position", "empty-label position check changed", stmt="empty-label")
+    okk = pat.has(vl.node, "if __i >= 0 and __i != __l - 1:\n    raise EmptyLabel", ev) and pat.has(vl.node, "__l = len(labels)", ev)
+    rep.check(okk, "R-01.2", vl.qualname, where(vl, vl.node), "an empty label is allowed only in last position", "empty-label position check changed", stmt="empty-label")
+    # the index remembered is that of the FIRST empty label: it is assigned only while still unset and only for an empty label
+    I = ev.get("__i", "?i")
+    sets_ = [n for n in cfg.nodes if isinstance(n.ast, ast.Assign) and src(n.ast.targets[0]) == I and n.loops]
+    okk = len(sets_) == 1
+    if okk:
+        have = set()
+        for t_ in cfg.nodes:
+            if t_.kind == "test" and isinstance(t_.ast, ast.If) and cfg.edge_dominated(sets_[0].id, {(t_.id, "t")}) and normalise_compare(t_.ast.test)[0] in ("and", "atom"):
+                have |= set(atoms(normalise_compare(t_.ast.test)))
+        okk = (I, "<", "0") in have and any(a[1] == "==" and a[2] == "b''" for a in have)
+    rep.check(okk, "R-01.2", vl.qualname, where(vl, sets_[0].ast if sets_ else vl.node), "the remembered index is that of the first empty label (set only while unset, only for an empty label)",
+              "the empty-label index is overwritten by later empty labels (not guarded by `i < 0 and label == b''`): a name with an interior empty label and a trailing root label passes validation", stmt="first-empty-label")
 
     # ---------------------------------------------------------------- R-01.3
     fw = model.func("dns.name.from_wire_parser")
@@ -255,6 +268,11 @@ def run(model, rep, tier):
 
 
 WITNESSES = [
+    {"id": "c01-last-empty-label-remembered", "rule": "R-01.2", "file": "dns/name.py", "expect": "fires",
+     "old": "        if i < 0 and label == b\"\":\n            i = j", "new": "        if label == b\"\":\n            i = j"},
+    {"id": "c01-twin-validate-labels-enumerate", "rule": "R-01.2", "file": "dns/name.py", "expect": "silent",
+     "old": "    j = 0\n    for label in labels:\n        ll = len(label)\n        total += ll + 1\n        if ll > 63:\n            raise LabelTooLong\n        if i < 0 and label == b\"\":\n            i = j\n        j += 1\n",
+     "new": "    for j, label in enumerate(labels):\n        ll = len(label)\n        total += ll + 1\n        if ll > 63:\n            raise LabelTooLong\n        if i < 0 and label == b\"\":\n            i = j\n"},
     {"id": "c01-compress-offset-64k", "rule": "R-01.4", "file": "dns/name.py", "expect": "fires",
      "old": "                    if pos <= 0x3FFF:", "new": "                    if pos <= 0xFFFF:"},
     {"id": "c01-self-pointer", "rule": "R-01.3", "file": "dns/name.py", "expect": "fires",
